@@ -4,7 +4,7 @@ The lead may wrap / compose these with the String, Box and arena parts."""
 VEC_OPS = ["new", "with_cap", "push", "pop", "insert", "remove", "swap_remove", "truncate", "clear", "resize", "extend",
            "extend_from_slice", "extend_copy", "extend_slices", "append", "split_off", "drain", "splice", "drain_filter", "retain",
            "dedup", "dedup_by", "dedup_by_key", "reserve", "reserve_exact", "try_reserve", "try_reserve_exact", "shrink", "clone",
-           "into_iter", "into_bump_slice", "into_boxed", "from_iter", "collect_in", "vmacro_n", "vmacro_list", "drop"]
+           "into_iter", "into_iter_nth", "into_bump_slice", "into_boxed", "from_iter", "collect_in", "vmacro_n", "vmacro_list", "drop"]
 
 
 def vec(module, profiles, fields, nontrivial, **kw):
@@ -41,7 +41,7 @@ SPECS = {
                [("general", 900, 45), ("iters", 800, 45), ("zst", 500, 40), ("growth", 200, 40)],
                ["drops", "moved", "ids", "len", "res"],
                ["pop", "remove", "swap_remove", "truncate", "clear", "resize", "drain", "splice", "drain_filter", "retain", "dedup",
-                "dedup_by", "dedup_by_key", "into_iter", "into_bump_slice", "into_boxed", "drop", "append", "split_off", "extend",
+                "dedup_by", "dedup_by_key", "into_iter", "into_iter_nth", "into_bump_slice", "into_boxed", "drop", "append", "split_off", "extend",
                 "clone", "insert", "push"], thorough_scale=40,
                partial=["Own preservation is proved for every method of the list: push, pop, insert, remove, swap_remove, truncate/clear, "
                         "append, split_off, drain, into_iter, retain, drain_filter, dedup(_by/_by_key), extend (caller's iterator), drop, "
@@ -53,7 +53,7 @@ SPECS = {
                [("panics", 2400, 45), ("iters", 200, 40)],
                ["res", "drops", "moved", "ids", "len"],
                ["retain", "drain_filter", "dedup_by", "dedup_by_key", "resize", "extend", "extend_from_slice", "clone", "splice",
-                "from_iter", "collect_in", "vmacro_n", "truncate", "clear", "drop", "into_iter", "drain", "into_boxed"],
+                "from_iter", "collect_in", "vmacro_n", "truncate", "clear", "drop", "into_iter", "into_iter_nth", "drain", "into_boxed"],
                quick_release=[("panics", 400, 45)], thorough_scale=40,
                partial=["full theorems (every callback answer function / panic index): drain_filter, retain, dedup_by(_key), truncate, clear, "
                         "drop, into_iter and drain dropped with panicking destructors, resize / extend_from_slice / clone / vec![elem; n] "
